@@ -365,6 +365,32 @@ func c14sScenarios(thorough bool) []c14sScn {
 					},
 				}
 			}},
+		{Name: "a decaying tag is bumped and then removed from the peer", Bound: 3, Low: 3, Hi: 4, Peers: []string{"A", "B", "C"}, Tags: map[string]int{"A": 10, "B": 7},
+			Race: func(e *c14sEnv) []func() {
+				return []func(){
+					func() {
+						dec, ok := connmgr.SupportsDecay(e.cm)
+						if !ok {
+							panic("c14s: no decayer")
+						}
+						tag, err := dec.RegisterDecayingTag("verif-decaying", time.Hour, connmgr.DecayNone(), connmgr.BumpSumUnbounded())
+						if err != nil {
+							panic(err)
+						}
+						// one caller, one after the other (the first bump keeps the decayer busy): bump A, then remove the tag from A
+						if err := tag.Bump(c14sPeer("B"), 1); err != nil {
+							panic(err)
+						}
+						vs.Locked(func() { e.tags["B"]["verif-decaying"] = 1 })
+						if err := tag.Bump(c14sPeer("A"), 5); err != nil {
+							panic(err)
+						}
+						if err := tag.Remove(c14sPeer("A")); err != nil {
+							panic(err)
+						}
+					},
+				}
+			}},
 		{Name: "UpsertTag races TagPeer on one peer and one tag", Bound: 3, Low: 1, Hi: 2, Peers: []string{"A", "B", "C"}, Tags: map[string]int{"B": 50, "C": 60},
 			Race: func(e *c14sEnv) []func() {
 				delete(e.tags, "A")
